@@ -744,6 +744,11 @@ func (v *Protocol) onPacketWriting(m *Message, pkt Packet) (err error) {
 }
 
 func (v *Protocol) onMessageArrivated(m *Message) (err error) {
+	// The message is not completed, for example, only got the first chunk.
+	if m == nil {
+		return
+	}
+
 	var pkt Packet
 	switch m.MessageType {
 	case MessageTypeSetChunkSize, MessageTypeUserControl, MessageTypeWindowAcknowledgementSize:
